@@ -637,6 +637,34 @@ def special_valid(rng):
     out.append(b)
     b, _ = G.encode(rng, G.Msg(9, 0x8180, [], 1, 1, an=[A([])]), "none")
     out.append(b)  # root everywhere
+    # chains of 14..16 pointers laid out in opaque record data; owner names and NS / MX / SOA names reached through the head of the run
+    for K in (14, 15, 16):
+        for tails in (1, 3):
+            out.append(G.chain_packet(K, tail_records=tails))
+        s0 = 19 + 12
+        run = b"".join(struct.pack(">H", 0xc000 | (12 if i == 0 else s0 + 2 * (i - 1))) for i in range(K))
+        head = struct.pack(">H", 0xc000 | (s0 + 2 * (K - 1)))
+        rrb = lambda nm, t, rd: nm + struct.pack(">HHIH", t, 1, 77, len(rd)) + rd
+        recs = [rrb(b"\xc0\x0c", 10, run), rrb(head, 1, b"\1\2\3\4"), rrb(head, 2, head), rrb(b"\xc0\x0c", 15, b"\0\7" + head),
+                rrb(head, 6, head + head + bytes(range(20))), rrb(b"\xc0\x0c", 12, head)]
+        out.append(struct.pack(">HHHHHH", 3, 0x8180, 1, len(recs), 0, 0) + G.wire_name([b"a"]) + struct.pack(">HH", 1, 1) + b"".join(recs))
+    # question name written as a pointer into the header, followed by additional records / OPT
+    hp = G.header_pointer_packet()
+    a_rec = b"\xc0\x00" + struct.pack(">HHIH", 1, 1, 5, 4) + b"\1\2\3\4"
+    opt = b"\0" + struct.pack(">HHIH", 41, 1232, 0x8000, 0)
+    for extra in ([a_rec], [opt], [a_rec, opt], [opt, a_rec], [a_rec, a_rec]):
+        out.append(hp[:10] + struct.pack(">H", len(extra)) + hp[12:] + b"".join(extra))
+    for qt in (28, 255, 0xffff):
+        out.append(hp[:14] + struct.pack(">HH", qt, 1))
+    # owner written in full, data holding a compressed name (NS, CNAME, PTR, MX, SOA), first in its section
+    Qw = G.wire_name(q) + struct.pack(">HH", 1, 1)
+    rrb = lambda nm, t, rd: nm + struct.pack(">HHIH", t, 1, 300, len(rd)) + rd
+    wp = b"\3www\xc0\x0c"
+    for t, rd in ((2, wp), (5, wp), (12, wp), (15, b"\0\5" + wp), (6, wp + b"\4host\xc0\x0c" + bytes(range(20)))):
+        for sec in range(3):
+            cnt = [0, 0, 0]
+            cnt[sec] = 2
+            out.append(struct.pack(">HHHHHH", 5, 0x8180, 1, *cnt) + Qw + rrb(G.wire_name(q), t, rd) + rrb(wp, 1, b"\1\2\3\4"))
     return [(x, decode_or_none(x)) for x in out if decode_or_none(x) is not None]
 
 
@@ -1094,6 +1122,12 @@ class HistProp(Prop):
     def base(self, rng, kind=None):
         """(first op, abstract message, flags)"""
         kind = kind or rng.choice(["parsed"] * 7 + ["query", "query", "empty-q", "empty"])
+        if kind == "parsed" and rng.random() < 0.2:
+            # hand-built layouts (OPT anywhere, deep chains, pointer into the header, full owner with compressed data)
+            if not hasattr(self, "_special"):
+                self._special = [b for (b, m) in special_valid(random.Random(1)) if H.decode_bytes(b) is not None and len(b) < 600]
+            b = rng.choice(self._special)
+            return "P," + hx(b), H.decode_bytes(b), set()
         if kind == "parsed":
             while True:
                 b, _, _ = G.rand_valid_packet(rng, max_rr=rng.choice([1, 2, 3, 5]))
@@ -1114,6 +1148,11 @@ class HistProp(Prop):
 
     def finish(self, i, first, bld, fam):
         return Case("h%d" % i, bld.line(first), {"family": fam, "steps": bld.steps, "a0": None})
+
+    def corpus_meta(self, line):
+        """A corpus line carries no expectations: every operation becomes a step checked for crashes, model agreement and the object's view."""
+        ops = line.split("\t")
+        return {"steps": [H.Step(ops[i], "corpus", None, None, None, {}) for i in range(5, len(ops), 5)], "a0": None}
 
     def meta_to_json(self, meta):
         m = dict(meta)
@@ -1266,13 +1305,39 @@ class HistProp(Prop):
         if vv.get("mc") == "0" and a.wire() != b:
             fails.append(("flag-unsound", "%s: maybe_compressed is false but the bytes are not in pointer-free form" % where))
 
+    HEADER_SETTERS = ("sf", "st", "sr", "so", "sp")
+
+    def header_pointer_case(self, case, op_index=None, text=None):
+        """Known-finding class: some name of the starting packet is read through the header bytes, the history calls a header setter, and
+        the failure is observed at or after that call."""
+        ops = case.line.split("\t")
+        setters = [i for i, o in enumerate(ops) if i > 0 and o.split(",")[0] in self.HEADER_SETTERS]
+        if not ops[0].startswith("P,") or not setters:
+            return False
+        if op_index is None:
+            import re
+            m = re.search(r"step (\d+)", text or "")
+            if not m:
+                return False
+            op_index = 5 + 5 * int(m.group(1))
+        if op_index < setters[0]:
+            return False
+        try:
+            return G.has_header_pointer(bytes.fromhex(ops[0][2:]))
+        except ValueError:
+            return False
+
     def oracle(self, case, io):
         w = no_crash(io)
         if w:
+            if self.header_pointer_case(case, op_index=len(io) - 1 if io else 0):
+                return "[header-pointer] a header setter rewrote bytes that a name of the packet is read through; afterwards: " + w
             return "[crash] " + w + " at op %d" % (len(io) - 1 if io else -1)
         fails = self.step_failures(case, io)
         if not fails:
             return None
+        if self.header_pointer_case(case, text=fails[0][1]):
+            return "[header-pointer] a header setter rewrote bytes that a name of the packet is read through; afterwards: [%s] %s" % fails[0]
         known = known_classes(self.id)
         for cls, txt in fails:
             if cls not in known:
